@@ -95,6 +95,8 @@ def related(rng, spec):
     s = copy.deepcopy(spec)
     keys = list(s['idx']) if 'idx' in s else sorted(s['cnt'])
     mode = rng.choice(['equal', 'equal', 'level', 'bits', 'subset', 'superset', 'overlap', 'counts', 'name', 'kind', 'empty'])
+    if s['kind'] == 'KFloat' and rng.random() < 0.25:
+        mode = 'counts_tiny'        # same support, one value off by a relative 2^-17 .. 2^-50: equality is exact, not approximate
     newkeys = keys
     if mode == 'level':
         s['level'] = rng.choice([l for l in LEVELS if l != s['level']])
@@ -129,6 +131,12 @@ def related(rng, spec):
             if mode == 'counts' and newkeys:
                 k = rng.choice(newkeys)
                 s['cnt'][k] = s['cnt'][k] + 1
+            if mode == 'counts_tiny' and newkeys:
+                k = rng.choice(newkeys)
+                base = Fraction(rng.choice([1, 3, 1000, 12345])) if rng.random() < 0.5 else s['cnt'][k]
+                s['cnt'][k] = base * (1 + Fraction(1, 2 ** rng.choice([17, 20, 24, 30, 40, 50])))
+                if rng.random() < 0.5 and k in (spec.get('cnt') or {}):
+                    spec['cnt'][k] = base            # the partner holds the unperturbed value at the same position
     return s
 
 
